@@ -9,5 +9,8 @@ CONSTANTS N = 4
  SignedGater = FALSE
  InnerProofPolicy = "reject"
  VCBatchPolicy = "none"
+ AggBatchFor = "none"
+ MemoVerifier = FALSE
+ ReplayPolicy = "admit"
 INVARIANTS TypeOK OnlyValidEnter ValidEnters PeerAllOrNothing
 CHECK_DEADLOCK FALSE
